@@ -47,6 +47,7 @@ for _n, _b in NALGEBRA.items():
 
 # bounded stand-ins for functions the extractor could not bring through (lost anchor): function id -> harnesses
 FALLBACK = {
+    'levmar.is_all_finite': ['is_all_finite_2x2'],
     'levmar.copy_matrix_to_column': ['copy_matrix_to_column_2x3'],
     'util.to_vector': ['to_vector_colmajor_3x2', 'copy_matrix_to_column_2x3'],
     'stats.concat_colwise': ['concat_colwise_2x2_2x1'],
